@@ -7,11 +7,11 @@ R=${SEEDROOT:-/tmp/seed2}; WT=$R/wt-$P; OUT=$R/out/$P; DST=/verif/seeded/$P$V
 cd $WT || exit 2
 git checkout -q -- . ; git clean -qfd
 [ -f $OUT/patch_$V.diff ] || { echo "$P$V: no patch"; exit 1; }
-if [ $V = n ] || [ $V = n2 ]; then
+if [ $V = n ] || [ $V = n2 ] || [ $V = n3 ]; then
   git apply $OUT/patch_$V.diff || { echo "$P$V: patch does not apply"; exit 1; }
   t=$(/venv/bin/python -m pytest -q -p no:cacheprovider tests/unit 2>&1 | tail -1)
   bad=""
-  for d in $OUT/demo_?.py /verif/seeded/${P}a/demo.py /verif/seeded/${P}b/demo.py; do
+  for d in $OUT/demo_*.py /verif/seeded/${P}a/demo.py /verif/seeded/${P}b/demo.py; do
     [ -f $d ] || continue
     timeout 300 /venv/bin/python $d >/dev/null 2>&1 || bad="$bad $(basename $(dirname $d))/$(basename $d)"
   done
